@@ -148,7 +148,14 @@ func (c exactEqualsComparator) lineStringsEq(ls1, ls2 LineString) bool {
 		return revEq
 	}
 
-	// Finally, check if the rings are the same once rotated.
+	// Finally, check if the rings are the same once rotated. A rotation skips
+	// the final (closing) point of the second ring, and reuses its first point
+	// instead. That is only sound if the closing point of each ring is the same
+	// as its first point in all of its ordinates (being rings only guarantees
+	// that for X and Y).
+	if !c.eq(c1.Get(0), c1.Get(n-1)) || !c.eq(c2.Get(0), c2.Get(n-1)) {
+		return false
+	}
 	for o := 1; o < n; o++ {
 		offset := func(i int) int {
 			return (i + o) % (n - 1)
